@@ -44,6 +44,7 @@ type Program struct {
 	AllocEnumMax  int
 	SymMapOrder   bool
 	PoolSymbolic  bool
+	ExplicitYield bool
 	MaxPreempt    int
 	MaxThreads    int
 	YieldFields   map[string]bool
@@ -104,21 +105,6 @@ func Load(cfg LoadConfig) (*Program, error) {
 	ov, _, err := BuildOverlay(cfg)
 	if err != nil {
 		return nil, err
-	}
-	// restrict overlay to the requested packages (+symapi) so that unrelated harness
-	// files with errors cannot break a check
-	keep := map[string]bool{}
-	for _, p := range cfg.Packages {
-		keep[filepath.Join(cfg.RepoDir, p)] = true
-	}
-	for v := range ov {
-		d := filepath.Dir(v)
-		if strings.HasSuffix(d, "zzverif/symapi") {
-			continue
-		}
-		if !keep[d] {
-			delete(ov, v)
-		}
 	}
 	pcfg := &packages.Config{
 		Mode: packages.NeedName | packages.NeedFiles | packages.NeedCompiledGoFiles | packages.NeedImports |
